@@ -1,7 +1,8 @@
 import Pywbem.Model.CimJson
 import Pywbem.Model.Ops
+import Pywbem.Model.OpsMeth
 open Lean Pywbem.Proto Pywbem.Model Pywbem.Model.CimJson Pywbem.Model.XmlText Pywbem.Model.Ops
-open Pywbem.Generated.OpsSig
+open Pywbem.Generated.OpsSig Pywbem.Model.OpsMeth
 
 /-! C04 driver.  One request per executed operation:
   {"op":"full","dflt":cps|null,"name":str,"args":{kw:arg},"host":cps,"reqtree":tt|null,
@@ -158,9 +159,25 @@ def full (j : Json) : Json :=
           (exchange C depth rows dflt host (fun _ => resultOfJson r) row call)
     Json.mkObj [("req", reqJ), ("srv", srvJ), ("rsp", rspJ), ("cli", cliJ), ("exch", exchJ)]
 
+def margOfJson (j : Json) : MArg :=
+  { name := (getChars j "name").getD [], val := valOfJson (getField j "val"),
+    declared := match getField j "decl" with
+      | .arr a => some ((jsonToChars? (a[0]!)).getD [], jsonToChars? (a[1]!))
+      | _ => none }
+
+/-- {"op":"meth","dflt":cps|null,"name":cps,"obj":arg,"args":[{"name","val","decl":null|[ty, eo|null]}],"codec"} -/
+def meth (j : Json) : Json :=
+  let C := codecOfJson (getField j "codec")
+  let dflt := effDefault (jsonToChars? (getField j "dflt"))
+  match methodRequestXml C dflt ((getChars j "name").getD []) (argOfJson (getField j "obj"))
+      ((getArr j "args").map margOfJson) with
+  | .ok x => Json.mkObj [("xml", strJ x.ser), ("wire", optToJson xmlToJson (wireTree x))]
+  | .error e => e.toJson
+
 def handle (j : Json) : Json :=
   match getStr j "op" with
   | some "full" => full j
+  | some "meth" => meth j
   | some "sig" => Json.mkObj [("sig", sigJson), ("coerced", Json.arr (coercedNames.map (fun (s : String) => (s : Json))).toArray),
       ("dropsOnlyNone", dropsOnlyNone)]
   | _ => Json.mkObj [("bad", "op")]
